@@ -431,6 +431,7 @@ func (e *expression) Value(ctx *hcl.EvalContext) (cty.Value, hcl.Diagnostics) {
 		var diags hcl.Diagnostics
 		attrs := map[string]cty.Value{}
 		attrRanges := map[string]hcl.Range{}
+		var keyMarks []cty.ValueMarks
 		known := true
 		for _, jsonAttr := range v.Attrs {
 			// In this one context we allow keys to contain interpolation
@@ -483,6 +484,11 @@ func (e *expression) Value(ctx *hcl.EvalContext) (cty.Value, hcl.Diagnostics) {
 				known = false
 				continue
 			}
+			// Marks on a key can't be kept on the attribute name itself, so
+			// (as in the native syntax) they are applied to the object as a
+			// whole instead.
+			name, nameMarks := name.Unmark()
+			keyMarks = append(keyMarks, nameMarks)
 			nameStr := name.AsString()
 			if _, defined := attrs[nameStr]; defined {
 				diags = append(diags, &hcl.Diagnostic{
@@ -501,9 +507,9 @@ func (e *expression) Value(ctx *hcl.EvalContext) (cty.Value, hcl.Diagnostics) {
 		if !known {
 			// We encountered an unknown key somewhere along the way, so
 			// we can't know what our type will eventually be.
-			return cty.DynamicVal, diags
+			return cty.DynamicVal.WithMarks(keyMarks...), diags
 		}
-		return cty.ObjectVal(attrs), diags
+		return cty.ObjectVal(attrs).WithMarks(keyMarks...), diags
 	case *nullVal:
 		return cty.NullVal(cty.DynamicPseudoType), nil
 	default:
